@@ -133,15 +133,15 @@ Proof.
       cbn [andb]. destruct (6 <? c_pto_count c1); [exact N1|].
       destruct (c_pending_burst c1); [|exact N1].
       unfold cc_send_quota. destruct (pacer_schedule _ _ _ _ _) as (p, q). cbn [fst].
-      destruct (c_mtu _ <=? q); exact N1.
+      destruct (c_mtu _ <=? _); exact N1.
     + cbn [andb]. destruct (c_pending_burst c); [|split; assumption].
       unfold cc_send_quota. destruct (pacer_schedule _ _ _ _ _) as (p, q). cbn [fst].
-      destruct (c_mtu _ <=? q); split; assumption.
+      destruct (c_mtu _ <=? _); split; assumption.
   - destruct (which =? 0); [|destruct (which =? 1)]; split; assumption.
   - destruct ((0 <=? e0) && (e0 <=? 1)); [|split; assumption]. cbn [fst].
     destruct (discard_ni c ri e0 e pn) as (D1 & D2). split; [now apply D2|now rewrite D1].
   - unfold cc_send_quota. destruct (pacer_schedule _ _ _ _ _) as (p, q).
-    destruct (c_mtu _ <=? q); split; assumption.
+    destruct (c_mtu _ <=? _); split; assumption.
   - split; assumption.
   - split; assumption.
 Qed.
@@ -169,7 +169,7 @@ Proof.
       destruct (cc_send_quota c ri) as (c2, q). exact Hin.
   - exact Hin.
   - destruct (_ && _); exact Hin.
-  - destruct (cc_send_quota c ri) as (c1, q). destruct (c_mtu c1 <=? q); exact Hin.
+  - destruct (cc_send_quota c ri) as (c1, q). destruct (c_mtu c1 <=? _); exact Hin.
   - exact Hin.
   - exact Hin.
 Qed.
